@@ -442,7 +442,10 @@ class Check:
             "wall_s": round(time.time() - self.t0, 2), "violations": len(new_viol) + (1 if self.broken and not new_viol else 0),
             "notes": self.notes,
         }
-        with open(os.path.join(VERIF, "evidence", "%s.json" % self.prop), "w") as fh:
+        # a replay run re-executes recorded cases only: it must not replace the evidence of a real run
+        ev_name = "%s.replay.json" % self.prop if self.replay else "%s.json" % self.prop
+        ev_dir = os.path.join(CACHE, "run") if self.replay else os.path.join(VERIF, "evidence")
+        with open(os.path.join(ev_dir, ev_name), "w") as fh:
             json.dump(ev, fh, indent=1, ensure_ascii=False)
         self.log("done rc=%d obligations=%d discharged=%d evaluations=%d distinct=%d known=%d" % (
             rc, self.cov["obligations"], self.cov["discharged"], self.cov["evaluations"],
